@@ -275,11 +275,19 @@ func dense(ts []tok) (string, bool) {
 	return "", false
 }
 
+// direct records a violation found by an enumeration; at most 25 per shard
+// (a broken lexer or grammar fails thousands of enumerated cases).
+func direct(sub string, c any, format string, args ...any) {
+	if rec.Violations() < 25 {
+		rec.Direct(sub, c, format, args...)
+	}
+}
+
 // all three oracles on one fixed token list (enumerations)
 func directAll(sub string, ts []tok) {
 	src := joinToks(ts, " ")
 	if got, err := tokenize(src); err != nil || !sameToks(got, ts) {
-		rec.Direct(sub, srcCase{src}, "harness: the tokenizer does not reproduce the token list of %q", src)
+		direct(sub, srcCase{src}, "harness: the tokenizer does not reproduce the token list of %q", src)
 		return
 	}
 	rec.Eval()
@@ -287,17 +295,17 @@ func directAll(sub string, ts []tok) {
 	rec.Class(sub + "/shape/" + cls)
 	noteNT(ts, got)
 	if msg != "" {
-		rec.Direct("shape", srcCase{src}, "%s", msg)
+		direct("shape", srcCase{src}, "%s", msg)
 	}
 	if !skipRoundTrip(src) {
 		if msg, _, _ := checkRoundTrip(srcCase{src}); msg != "" {
-			rec.Direct("roundtrip", srcCase{src}, "%s", msg)
+			direct("roundtrip", srcCase{src}, "%s", msg)
 		}
 	}
 	if d, ok := dense(ts); ok && d != src {
 		c := spaceCase{src, d}
 		if msg, _, _ := checkSpace(c); msg != "" {
-			rec.Direct("respace", c, "%s", msg)
+			direct("respace", c, "%s", msg)
 		}
 	}
 }
@@ -649,7 +657,7 @@ func TestC09(t *testing.T) {
 				rec.Class("comments/" + cls)
 				noteNTq(ts, q)
 				if msg != "" {
-					rec.Direct("respace", c, "%s", msg)
+					direct("respace", c, "%s", msg)
 				}
 			}
 		}
@@ -679,13 +687,13 @@ func TestC09(t *testing.T) {
 				noteNTq(ts, q)
 			}
 			if msg != "" {
-				rec.Direct("corpus-shape", srcCase{src}, "%s", msg)
+				direct("corpus-shape", srcCase{src}, "%s", msg)
 			}
 			if d, ok := dense(ts); ok {
 				c := spaceCase{src, d}
 				if !skipSpace(c) {
 					if msg, _, _ := checkSpace(c); msg != "" {
-						rec.Direct("corpus-respace", c, "%s", msg)
+						direct("corpus-respace", c, "%s", msg)
 					}
 				}
 			}
@@ -694,7 +702,7 @@ func TestC09(t *testing.T) {
 			msg, cls, _ := checkRoundTrip(srcCase{src})
 			rec.Class("corpus/roundtrip/" + cls)
 			if msg != "" {
-				rec.Direct("corpus-roundtrip", srcCase{src}, "%s", msg)
+				direct("corpus-roundtrip", srcCase{src}, "%s", msg)
 			}
 		}
 	}
